@@ -133,7 +133,7 @@ def run(ctx):
     rng = ctx.rng
     cases = corpus()
     dist = {"family": {}, "explicit_edges": 0}
-    for _ in range(ctx.n(220, 4000)):
+    for _ in range(ctx.n(600, 4000)):
         g, fam = make_case(rng)
         try:
             inputs = gen.make_inputs(rng, g)
